@@ -1109,17 +1109,6 @@ func min_max(args py.Tuple, kwargs py.StringDict, name string) (py.Object, error
 			return nil, py.ExceptionNewf(py.TypeError, "'%s' object is not callable", keyFunc.Type())
 		}
 	}
-	if defaultValue != nil {
-		maxItem = defaultValue
-		if keyFunc != nil {
-			maxVal, err = py.Call(kf, py.Tuple{defaultValue}, nil)
-			if err != nil {
-				return nil, err
-			}
-		} else {
-			maxVal = defaultValue
-		}
-	}
 	iter, err := py.Iter(values)
 	if err != nil {
 		return nil, err
@@ -1166,6 +1155,11 @@ func min_max(args py.Tuple, kwargs py.StringDict, name string) (py.Object, error
 	}
 
 	if maxItem == nil {
+		// the default is returned only for an empty iterable: it
+		// takes no part in the comparison and key is not applied to it
+		if defaultValue != nil {
+			return defaultValue, nil
+		}
 		return nil, py.ExceptionNewf(py.ValueError, "%s() arg is an empty sequence", name)
 	}
 
